@@ -213,8 +213,9 @@ def run_script_search(code, path, q):
 
 
 def _setup_worker(tmp):
+    """parso's pickle cache is per process here (concurrent writers corrupt a shared one)."""
     import jedi
-    jedi.settings.cache_directory = os.path.join(tmp, 'jedi_cache')
+    jedi.settings.cache_directory = os.path.join(tmp, 'jedi_cache', str(os.getpid()))
 
 
 def header(tree, plimit):
@@ -430,43 +431,30 @@ def describe_event(trace, at, info):
     return d
 
 
-def judge(ctx, label, traces, infos):
-    """Trace_Search decides; REJECT -> one violation per failing shape key."""
+def why_pairs(v):
+    """Trace_Search prints the rejected calls as ToJson({<<event index, shape>>, ...})."""
+    import json
+    w = v.get('why')
+    if isinstance(w, str):
+        return sorted((int(a), str(b)) for a, b in json.loads(w))
+    return []
+
+
+def judge_all(ctx, label, traces, infos):
+    """Trace_Search decides; a REJECT lists (event index, failing shape) for every rejected call ->
+    one violation per rejected call and shape."""
     if not traces:
-        return []
+        return
     vs = validate_traces('Trace_Search', 'Trace_Search.cfg', [[strip_event(e) for e in t] for t in traces],
                          ctx, label, timeout=3000, chunk=1500)
     for v, t, info in zip(vs, traces, infos):
         if v['accepted']:
             continue
-        # a trace stops at its first rejected event: re-judge the rest so that every failing call is reported
-        why = v['why'] or ['?']
-        for w in why:
-            ctx.violation(w, 'search result violates the Reference (%s)' % w, describe_event(t, v['at'], info))
-    return vs
-
-
-def split_rejected(traces, infos, vs):
-    """Traces whose first rejection has only known shapes are cut after the rejected event and the
-    remainder is judged again, so that an unknown violation cannot hide behind a known one."""
-    more_t, more_i = [], []
-    for v, t, info in zip(vs, traces, infos):
-        if not v['accepted'] and v['at'] and v['at'] < len(t):
-            more_t.append([t[0]] + t[v['at']:])
-            more_i.append(info)
-    return more_t, more_i
-
-
-def judge_all(ctx, label, traces, infos):
-    rounds = 0
-    while traces and rounds < 60:
-        vs = judge(ctx, label if rounds == 0 else label + ' (continued after a rejected event)', traces, infos)
-        if rounds:
-            ctx.coverage['traces_validated_against_impl'] -= len(traces)
-        traces, infos = split_rejected(traces, infos, vs)
-        rounds += 1
-    if traces:
-        raise MachineryError('trace judging did not terminate')
+        pairs = why_pairs(v)
+        if not pairs:
+            raise MachineryError('trace rejected without a reason: %s' % v)
+        for at, shape in sorted(pairs):
+            ctx.violation(shape, 'search result violates the Reference (%s)' % shape, describe_event(t, at, info))
 
 
 # ---------------------------------------------------------------- main
@@ -474,26 +462,41 @@ def run(ctx):
     quick = ctx.quick
     os.makedirs(os.path.join(ctx.tmp, 'jedi_cache'), exist_ok=True)
 
-    # 1. Design |= Reference modulo known shapes, exhaustive; the strict invariants run beside it
+    # All TLC jobs are independent of each other and of the real code: they run side by side.
+    #  main*          Design |= Reference modulo known shapes, exhaustive
+    #  strict_*       the strict invariants (a counterexample is expected while a finding is open)
+    #  emit*          emission of cases with the Design's predictions (one worker: ordered printing)
+    #  emit_limit     the parse-limit model (ParseLimit=2): invariant + emission
     main_bounds = dict(pool='quick', dirs=3, depth=2, files=1, gi=1, lines=1) if quick else \
         dict(pool='quick', dirs=3, depth=2, files=2, gi=1, lines=1)
+    strict = [('strict_prefix', 'StrictComplete', dict(pool='quick', dirs=3, depth=2, files=0, gi=1, lines=1)),
+              ('strict_file', 'StrictNoIgnoredFile', dict(pool='quick', dirs=0, depth=2, files=1, gi=1, lines=1)),
+              ('strict_syspath', 'StrictNoSysPathLeak', dict(pool='quick', dirs=1, depth=1, files=1, gi=1, lines=1))]
+    mod = 211 if quick else 23
+    lmod = 3 if quick else 5
+    emit_bounds = dict(pool='quick', dirs=3, depth=2, files=1, gi=1, lines=1) if quick else \
+        dict(pool='thorough', dirs=2, depth=2, files=2, gi=1, lines=1)
+    jobs = [('main', 'INVARIANT DesignMeetsReferenceModuloKnown', 8 if quick else 12, main_bounds)]
+    if not quick:
+        jobs.append(('main_wide', 'INVARIANT DesignMeetsReferenceModuloKnown', 4,
+                     dict(pool='thorough', dirs=2, depth=2, files=1, gi=1, lines=2)))
+    jobs += [(n, 'INVARIANT ' + inv, 1, b) for n, inv, b in strict]
+    jobs += [('emit', 'CONSTRAINT Emit', 1, dict(emit_bounds, mod=mod, rem=ctx.seed % mod)),
+             ('emit_dirs', 'CONSTRAINT Emit', 1, dict(pool='quick', dirs=3, depth=2, files=0, gi=1, lines=1)),
+             ('emit_small', 'CONSTRAINT Emit', 1, dict(pool='quick', dirs=1, depth=1, files=1, gi=1, lines=1)),
+             ('emit_limit', 'CONSTRAINT Emit\nINVARIANT DesignMeetsReferenceModuloKnown', 1,
+              dict(pool='limits', dirs=1, depth=1, files=3 if quick else 4, gi=0 if quick else 1, lines=1, plimit=2,
+                   mod=lmod, rem=ctx.seed % lmod))]
     runs = {}
 
-    def tlc(name, inv, workers, **b):
-        cfg = write_cfg(ctx, name + '.cfg', 'INVARIANT ' + inv, **b)
+    def tlc(name, tail, workers, b):
+        cfg = write_cfg(ctx, name + '.cfg', tail, **b)
         try:
             runs[name] = run_tlc('Search', cfg, workers=workers, timeout=5000)
         except BaseException as e:  # noqa
             runs[name] = e
-    strict = [('strict_prefix', 'StrictComplete', dict(pool='quick', dirs=3, depth=2, files=0, gi=1, lines=1)),
-              ('strict_file', 'StrictNoIgnoredFile', dict(pool='quick', dirs=0, depth=2, files=1, gi=1, lines=1)),
-              ('strict_syspath', 'StrictNoSysPathLeak', dict(pool='quick', dirs=1, depth=1, files=1, gi=1, lines=1))]
-    ths = [threading.Thread(target=tlc, args=(n, inv, 2), kwargs=b) for n, inv, b in strict]
-    ths.append(threading.Thread(target=tlc, args=('main', 'DesignMeetsReferenceModuloKnown', 14), kwargs=main_bounds))
-    if not quick:
-        ths.append(threading.Thread(target=tlc, args=('main_wide', 'DesignMeetsReferenceModuloKnown', 8),
-                                    kwargs=dict(pool='thorough', dirs=2, depth=2, files=1, gi=1, lines=2)))
-    ctx.log('TLC: exhaustive Design|=Reference (modulo known shapes) + %d strict runs' % len(strict))
+    ctx.log('TLC: %d runs side by side (exhaustive Design|=Reference, strict invariants, case emission)' % len(jobs))
+    ths = [threading.Thread(target=tlc, args=j) for j in jobs]
     for t in ths:
         t.start()
     for t in ths:
@@ -503,7 +506,8 @@ def run(ctx):
             raise r if isinstance(r, MachineryError) else MachineryError('TLC run %s failed: %r' % (n, r))
     for n in [k for k in runs if k.startswith('main')]:
         res = runs[n]
-        ctx.add_tlc(res, 'Design|=Reference modulo known shapes, exhaustive (%s)' % n)
+        ctx.add_tlc(res, 'Design|=Reference modulo known shapes, exhaustive (%s: %s)' % (n, dict(jobs)[n] if False else
+                                                                                         [j[3] for j in jobs if j[0] == n][0]))
         if res.violated:
             raise MachineryError('Search.tla: the Design deviates from the Reference in a shape that is not a known '
                                  'finding (%s); last state:\n%s' % (res.violated, res.trace[-1:]))
@@ -512,7 +516,7 @@ def run(ctx):
     ctx.coverage['exhaustive'] = True
     ctx.log('main run: %d distinct states in %.0fs' % (runs['main'].distinct, runs['main'].wall))
 
-    # 2. counterexamples of the strict invariants -> real directories (confirmation of the known shapes)
+    # counterexamples of the strict invariants -> real directories (confirmation of the known shapes)
     cex_cases = []
     for n, inv, b in strict:
         res = runs[n]
@@ -524,25 +528,14 @@ def run(ctx):
         cex_cases.append((inv, state_to_tree(st)))
     ctx.coverage['strict_counterexamples'] = [inv for inv, _ in cex_cases]
 
-    # the counterexample trees are completed with the Design's predictions by a tiny emission run
-    # (same operators), so that they are replayed exactly like every other case
-    # 3. emitted slice -> replay (spec -> code)
-    mod = 97 if quick else 11
-    emit_bounds = dict(pool='quick', dirs=3, depth=2, files=1, gi=1, lines=1) if quick else \
-        dict(pool='thorough', dirs=2, depth=2, files=2, gi=1, lines=1)
-    cfg = write_cfg(ctx, 'emit.cfg', 'CONSTRAINT Emit', mod=mod, rem=ctx.seed % mod, **emit_bounds)
-    res = run_tlc('Search', cfg, workers=1, timeout=5000)
-    ctx.add_tlc(res, 'case emission slice %d mod %d' % (ctx.seed % mod, mod))
-    cs = cases(res)
-    # the counterexample shapes are always part of the replay: emit exactly those trees
-    cfg = write_cfg(ctx, 'emit_small.cfg', 'CONSTRAINT Emit', pool='quick', dirs=3, depth=2, files=0, gi=1, lines=1)
-    res2 = run_tlc('Search', cfg, workers=1, timeout=5000)
-    ctx.add_tlc(res2, 'case emission: all trees without python files (3 dirs, 1 .gitignore)')
-    cs_dirs = cases(res2)
-    cfg = write_cfg(ctx, 'emit_small2.cfg', 'CONSTRAINT Emit', pool='quick', dirs=1, depth=1, files=1, gi=1, lines=1)
-    res3 = run_tlc('Search', cfg, workers=1, timeout=5000)
-    ctx.add_tlc(res3, 'case emission: all trees with <=1 dir, <=1 file, <=1 .gitignore')
-    cs_small = cases(res3)
+    # emitted cases -> replay (spec -> code).  The counterexample trees are looked up among the
+    # emitted small trees, so that they carry the Design's predictions like every other case.
+    ctx.add_tlc(runs['emit'], 'case emission slice %d mod %d (%s)' % (ctx.seed % mod, mod, emit_bounds))
+    cs = cases(runs['emit'])
+    ctx.add_tlc(runs['emit_dirs'], 'case emission: all trees without python files (<=3 dirs, <=1 .gitignore)')
+    cs_dirs = cases(runs['emit_dirs'])
+    ctx.add_tlc(runs['emit_small'], 'case emission: all trees with <=1 dir, <=1 file, <=1 .gitignore')
+    cs_small = cases(runs['emit_small'])
     by_tree = {tree_key(c): c for c in cs_dirs + cs_small}
     cex_emitted = []
     for inv, tree in cex_cases:
@@ -553,8 +546,8 @@ def run(ctx):
     rng = ctx.rng
     rng.shuffle(cs_dirs)
     rng.shuffle(cs_small)
-    extra = cs_dirs[:150 if quick else 1500] + cs_small[:250 if quick else 2500]
-    if len(cs) < (300 if quick else 3000):
+    extra = cs_dirs[:60 if quick else 1500] + cs_small[:120 if quick else 896]
+    if len(cs) < (200 if quick else 3000):
         raise MachineryError('too few cases emitted: %d' % len(cs))
     allcases = [c for _, c in cex_emitted] + cs + extra
     ctx.log('replaying %d TLC trees (x %d queries x 2 listing orders + Script.search)' % (len(allcases), len(allcases[0]['preds'])))
@@ -581,10 +574,7 @@ def run(ctx):
                     'first_call': describe_event(r['trace'], 2, {}).get('event')}, limit=5)
 
     # 4. parse limit: the model with ParseLimit=2 against the code with _PARSED_FILE_LIMIT patched to 2
-    cfg = write_cfg(ctx, 'emit_limit.cfg', 'CONSTRAINT Emit\nINVARIANT DesignMeetsReferenceModuloKnown', pool='limits',
-                    dirs=1, depth=1, files=3 if quick else 4, gi=1 if not quick else 0, lines=1, plimit=2,
-                    mod=3 if quick else 5, rem=ctx.seed % (3 if quick else 5))
-    resl = run_tlc('Search', cfg, workers=1, timeout=5000)
+    resl = runs['emit_limit']
     ctx.add_tlc(resl, 'parse-limit model (ParseLimit=2): invariant + case emission')
     if resl.violated:
         raise MachineryError('Search.tla (limits pool): unknown deviation shape: %s' % resl.trace[-1:])
@@ -747,6 +737,7 @@ def selftest(ctx, traces):
     vs = validate_traces('Trace_Search', 'Trace_Search.cfg', [b[1] for b in bad], ctx, 'binding self-test')
     ctx.coverage['traces_validated_against_impl'] = n0
     for b, v in zip(bad, vs):
-        if v['accepted'] or b[2] not in (v['why'] or []):
-            raise MachineryError('binding self-test: corrupted trace %s not rejected with %s: %s' % (b[0], b[2], v))
-    ctx.coverage['binding_selftest'] = 'corrupted records rejected: %s' % [(b[0], v['why']) for b, v in zip(bad, vs)]
+        if True:
+            if v['accepted'] or b[2] not in [w for _, w in why_pairs(v)]:
+                raise MachineryError('binding self-test: corrupted trace %s not rejected with %s: %s' % (b[0], b[2], v))
+    ctx.coverage['binding_selftest'] = 'corrupted records rejected: %s' % [(b[0], sorted(set(w for _, w in why_pairs(v)))) for b, v in zip(bad, vs)]
